@@ -17,7 +17,9 @@ def sh(cmd, cwd, timeout=900):
 
 
 def main():
-    base = "/tmp/wt"
+    args = [a for a in sys.argv[1:] if not a.startswith("--")]
+    base = args[0] if args else "/tmp/wt"
+    offset = int(args[1]) if len(args) > 1 else 0  # round 2: m1 -> m3, m2 -> m4
     scratch = "/tmp/wt-verify"
     sh("git -C /repo worktree remove --force %s" % scratch, "/")
     rc, out = sh("git -C /repo worktree add -q --detach %s HEAD" % scratch, "/")
@@ -26,11 +28,13 @@ def main():
     try:
         for pid in sorted(os.listdir(base)):
             mdir = os.path.join(base, pid, "mutations")
-            if not os.path.isdir(mdir):
+            if not os.path.isdir(mdir) or not pid.startswith("C"):
                 continue
             for m in sorted(os.listdir(mdir)):
                 src = os.path.join(mdir, m)
-                sid = "%s-%s" % (pid, m)
+                if not (m.startswith("m") and m[1:].isdigit()):
+                    continue
+                sid = "%s-m%d" % (pid, int(m[1:]) + offset)
                 dst = os.path.join(HERE, "seeded", sid)
                 if not os.path.exists(os.path.join(src, "patch.diff")) or not os.path.exists(os.path.join(src, "demo.py")):
                     continue
